@@ -668,6 +668,55 @@ theorem get_floatSafe : ∀ (path : List Seg) (pl v : Val), pl.floatSafe = true 
     | num _ _ => simp [Val.get] at h
     | str _ => simp [Val.get] at h
 
+/-! ## Rounding touches numbers only -/
+
+theorem lookup_roundFields (k : String) : ∀ kvs : List (String × Val),
+    lookup k (roundFields kvs) = (lookup k kvs).map Val.round
+  | [] => rfl
+  | (k', v) :: r => by
+    simp only [roundFields, lookup]
+    split
+    · rfl
+    · exact lookup_roundFields k r
+
+theorem getElem_roundList : ∀ (l : List Val) (i : Nat), (roundList l)[i]? = (l[i]?).map Val.round
+  | [], _ => by simp [roundList]
+  | v :: r, 0 => by simp [roundList]
+  | v :: r, i + 1 => by
+    simp only [roundList, List.getElem?_cons_succ]
+    exact getElem_roundList r i
+
+/-- selecting commutes with rounding: what a path finds in the rounded value is the rounded form of what it finds in
+the value itself -/
+theorem get_round : ∀ (path : List Seg) (v : Val), v.round.get path = (v.get path).map Val.round
+  | [], v => by simp [Val.get]
+  | s :: r, v => by
+    cases v with
+    | obj kvs =>
+      simp only [Val.round, Val.get, lookup_roundFields]
+      cases lookup s.key kvs with
+      | none => rfl
+      | some v' => simpa using get_round r v'
+    | arr l =>
+      simp only [Val.round, Val.get]
+      cases s.idx with
+      | none => rfl
+      | some i =>
+        simp only [getElem_roundList]
+        cases l[i]? with
+        | none => rfl
+        | some v' => simpa using get_round r v'
+    | null => rfl
+    | bool _ => rfl
+    | num m e => cases e <;> rfl
+    | str _ => rfl
+
+/-- a string is never the result of rounding anything but itself -/
+theorem round_eq_str (v : Val) (s : String) : v.round = .str s ↔ v = .str s := by
+  cases v with
+  | num m e => cases e <;> simp [Val.round]
+  | _ => simp [Val.round]
+
 /-! ## Subject -/
 
 theorem subject_accepted_iff (sc : SubjectConf) (pl : Val) (id : String) (attrs : Val) :
